@@ -11,8 +11,8 @@ import YowsupVerif.Gen.EntityTable
 import YowsupVerif.Props.C01
 namespace Yow.Payload
 
-/-- classes with a recorded finding (DESIGN §8) -/
-def knownBadEntities : List String := ["protocol_ib:account_ib.AccountIbProtocolEntity"]
+/-- classes with a recorded finding (DESIGN §8): none at present (the ib entities' `from` was repaired by fix 5552326) -/
+def knownBadEntities : List String := []
 
 def badIndices (names bad : List String) : List Nat :=
   (List.range names.length).filter (fun i => bad.contains (names.getD i ""))
